@@ -253,6 +253,42 @@ def run_case(case, ctx):
         ctx.check("C13.position", pos.shape == want.shape and bool(np.allclose(pos, want, rtol=0, atol=1e-12 * R)), {"maxdiff": float(np.max(np.abs(pos - want))) if pos.shape == want.shape else None}, tags)
     except Exception as e:  # noqa
         ctx.check("C13.position", False, {"exc": repr(e)[:200]}, tags)
+    # the form of the direction arguments must not matter: lists, 2-d arrays in C and in Fortran memory order, strided views
+    if nz and case["eps"] in (1e-4, 0.05):
+        shp = (len(ang[0]),) if cls == "2d" else (len(TH), len(PH))
+        for form in ("list", "2d-C", "2d-F", "transposed-view", "strided"):
+            if form == "list":
+                args = [list(map(float, a)) for a in ang]
+                back = lambda x: np.asarray(x)
+            elif form == "2d-C":
+                if cls == "2d":
+                    continue
+                args = [np.ascontiguousarray(a.reshape(shp)) for a in ang]
+                back = lambda x: np.asarray(x).reshape(-1)
+            elif form == "2d-F":
+                if cls == "2d":
+                    continue
+                args = [np.asfortranarray(a.reshape(shp)) for a in ang]
+                back = lambda x: np.asarray(x).reshape(-1)
+            elif form == "transposed-view":
+                if cls == "2d":
+                    continue
+                args = [np.ascontiguousarray(a.reshape(shp).T).T for a in ang]  # same values, non-C strides
+                back = lambda x: np.asarray(x).reshape(-1)
+            else:
+                args = [np.repeat(a, 2)[::2] for a in ang]
+                back = lambda x: np.asarray(x)
+            if cls == "axisym":
+                args = args[:1]
+            try:
+                rr = back(drop.interface_distance(*args))
+                hh = np.asarray(drop.interface_curvature(*args))
+                h1 = np.asarray(drop.interface_curvature(*([ang[0]] if cls == "axisym" else list(ang))))
+                ctx.op(3)
+                ok = rr.shape == np.shape(r_lib) and bool(np.array_equal(rr, np.asarray(r_lib))) and np.array_equal(hh.reshape(-1) * np.ones(h1.size), h1.reshape(-1) * np.ones(h1.size))
+                ctx.check("C13.argument-form", bool(ok), {"form": form}, tags)
+            except Exception as e:  # noqa
+                ctx.check("C13.argument-form", False, {"form": form, "exc": repr(e)[:200]}, tags)
     # scalar arguments work as well
     try:
         p1 = drop.interface_position(*[float(a[3]) for a in ang])
@@ -319,7 +355,7 @@ def run_case(case, ctx):
         d = 2 if cls == "2d" else 3
         Vs = [None, None, PI * R * R, 4 * PI / 3 * R**3][d]
         if cls == "2d":
-            ctx.check("C13.sphere-limit", abs(drop.volume - Vs) <= 1e-12 * Vs and abs(drop.surface_area - 2 * PI * R) <= 1e-9 * R and abs(drop.surface_area_approx - 2 * PI * R) <= 1e-12 * R, {"volume": drop.volume, "surface": drop.surface_area}, tags)
+            ctx.check("C13.argument-form", "C13.sphere-limit", abs(drop.volume - Vs) <= 1e-12 * Vs and abs(drop.surface_area - 2 * PI * R) <= 1e-9 * R and abs(drop.surface_area_approx - 2 * PI * R) <= 1e-12 * R, {"volume": drop.volume, "surface": drop.surface_area}, tags)
             Hc = drop.interface_curvature(ang[0])
         else:
             ctx.check("C13.sphere-limit", abs(drop.volume_approx - Vs) <= 1e-12 * Vs, {"volume_approx": drop.volume_approx}, tags)
@@ -330,5 +366,5 @@ def run_case(case, ctx):
 
 
 def expected_positive(tier):
-    return ["C13.shape-function", "C13.position", "C13.triangulation", "C13.curvature-1st", "C13.volume-1st", "C13.volume", "C13.surface", "C13.sphere-limit",
+    return ["C13.shape-function", "C13.position", "C13.triangulation", "C13.curvature-1st", "C13.volume-1st", "C13.volume", "C13.surface", "C13.sphere-limit", "C13.argument-form",
             "non-zero-amplitudes", "several-simultaneous-modes", "C13.state-independent", "mutation-sequences"]
